@@ -184,7 +184,7 @@ class ExtraMultiConstraint(MultiConstraint):
             if other in self._constraints:
                 return other
 
-            if len(self._constraints) == 2 and other.value in (
+            if len({c.value for c in self._constraints}) == 2 and other.value in (
                 c.value for c in self._constraints
             ):
                 # same value but different operator
